@@ -626,6 +626,15 @@ let do_listen id ins outs =
     else verdict "listen" id "spec:C16" tag (Printf.sprintf "returned=%s after %sms errclass=%s rebind=%s" returned ms cls rebind)
   | _ -> verdict "listen" id "diff" "malformed-line" ""
 
+(* ---- engine racestress ----  race <i> stress <secs> => none | <frames> <count>
+   no model output to compare: a report by the Go race detector whose stacks touch /repo
+   code is a failure of C15 on the implementation itself *)
+let do_race id ins outs =
+  match outs with
+  | ["none"] -> verdict "race" id "ok" "stress/none" ""
+  | [fr; n] -> verdict "race" id "spec:C15" "stress/race" (Printf.sprintf "go race detector: %s reports between %s" n fr)
+  | _ -> verdict "race" id "diff" "malformed-line" ""
+
 (* ---- engine reply, mode storm ----  storm <id> <K> <events> => <maxDuring> <barrier> *)
 let do_storm id ins outs =
   match ins, outs with
@@ -826,6 +835,7 @@ let () =
       | "hdr" :: id :: rest -> let (i, o) = split_arrow rest in do_hdr id i o
       | "cfg" :: id :: rest -> let (i, o) = split_arrow rest in do_cfg id i o
       | "rc" :: id :: rest -> let (i, o) = split_arrow rest in do_rc id i o
+      | "race" :: id :: rest -> let (i, o) = split_arrow rest in do_race id i o
       | "storm" :: id :: rest -> let (i, o) = split_arrow rest in do_storm id i o
       | "listen" :: id :: rest -> let (i, o) = split_arrow rest in do_listen id i o
       | "mgr" :: id :: rest -> let (i, o) = split_arrow rest in do_mgr id i o
